@@ -42,6 +42,7 @@ def run(ctx):
     ctx.do(rule_version_constants)
     ctx.do(rule_only_21_mechanisms)
     ctx.do(rule_detect)
+    ctx.do(rule_no_redetection_below_a_version_in_force)
     from .hidden_state import rule_no_hidden_state
     ctx.do(rule_no_hidden_state, "C14.history-independence")
     from .pitfalls import rule_loops_not_cut_short
@@ -630,3 +631,55 @@ def rule_version_bases(ctx, rule_id="C14.version-in-scope"):
     if n < 100:
         raise AnalysisError("fewer than 100 versioned object classes found (%d)" % n)
     return n
+
+
+def rule_no_redetection_below_a_version_in_force(ctx, R="C14.version-in-scope"):
+    """Detection by content is the FALLBACK for "no version named" and happens once, where the version parameter is defaulted.
+    A helper that is called from a function with a version in force, takes no version itself and asks detect_spec_version()
+    about the content decides by what the content CLAIMS (a 'spec_version' key) instead of by what it is being read as:
+    content read as 2.0 that carries "spec_version": "2.1" gets the 2.1-only treatment (the new-object extension escape).
+    For every call from a function with a `version` parameter to a package function without one: the callee does not consult
+    the detector (followed through one level of such helpers)."""
+    run = ctx.run
+    prog = ctx.prog
+    n = 0
+    k_ = 0
+
+    def detects(fn, depth=0):
+        for c in body_walk(fn.node):
+            if isinstance(c, ast.Call) and call_simple_name(c) == "detect_spec_version":
+                return c
+            if depth < 1 and isinstance(c, ast.Call) and isinstance(c.func, (ast.Name, ast.Attribute)):
+                d = prog.deref(prog.resolve_expr(fn.scope, c.func))
+                if isinstance(d, FunctionInfo) and d is not fn and "version" not in d.all_param_names() and d.name != "detect_spec_version":
+                    hit = detects(d, depth + 1)
+                    if hit is not None:
+                        return hit
+        return None
+    for fi in sorted(prog.functions.values(), key=lambda f: f.id):
+        if fi.module.relpath.startswith("stix2/test") or fi.module.name.startswith(("stix2.workbench", "stix2.equivalence")):
+            continue
+        if "version" not in fi.all_param_names():
+            continue
+        for c in body_walk(fi.node):
+            if not (isinstance(c, ast.Call) and isinstance(c.func, (ast.Name, ast.Attribute))):
+                continue
+            d = prog.deref(prog.resolve_expr(fi.scope, c.func))
+            if not isinstance(d, FunctionInfo) or d is fi or d.name == "detect_spec_version" or "version" in d.all_param_names():
+                continue
+            if d.module.relpath.startswith("stix2/test"):
+                continue
+            n += 1
+            hit = detects(d)
+            if hit is not None:
+                k_ += 1
+                run.violation(R, key(fi.module.relpath, fi.qualname, "helper-redetects-version#%d" % k_),
+                              "%s() is called where a version is in force but takes none and asks detect_spec_version() about the "
+                              "content: it decides by the version the content claims, not by the one it is read as -- content read "
+                              "as 2.0 that carries a 'spec_version' key gets 2.1-only treatment" % d.name, file=fi.module.relpath,
+                              line=c.lineno, function=fi.qualname, expected="the helper takes the version in force as a parameter",
+                              found="%s -> %s" % (short(c, 60), short(hit, 60)))
+    run.extra["versionless_helper_calls_examined"] = n
+    if n < 10:
+        raise AnalysisError("fewer than 10 calls from versioned functions to version-less package functions (%d): resolution lost" % n)
+    run.ok(R, key("stix2", "<versioned functions>", "no-redetection-in-helpers"))
